@@ -47,7 +47,20 @@
      - an element name that is not a QName / a PI target that is not valid: the machine is Stuck2 (the library
        warns and instantiates the content without the element, ElemElement.cpp:147-153 / raises an error,
        ElemPI.cpp:124-132; neither path is modelled; the reference semantics gives None).
-   Definitions only (extracted by ExtractXsltCore2.v). *)
+   ATTRIBUTE SETS (XSLT 1.0 7.1.4; deliverable c): JLreU / JElementU / JCopyU carry use-attribute-sets as indices of JAttrSet
+   entries of the program (a name stands for all its definitions, lowest import precedence first: that merging is done by
+   whoever builds the program).  Reference semantics: the attributes of the used sets in order, each set after the sets it
+   uses, evaluated in the current context with NO local binding visible; then the element's own attributes; then the
+   content.  Machine, read from ElemUse.cpp (startElement 98-113, endElement 118-127, getNextChildElemToExecute 131-166,
+   getFirstChildElemToExecute 170-201, getNextAttributeSet 205-235), ElemAttributeSet.cpp (startElement 123-137:
+   ElemUse::startElement, pushContextMarker, pushOnElementRecursionStack; endElement 141-148; getInvoker 152-156),
+   ElemLiteralResult.cpp (startElement: start tag, ElemUse::startElement, beginExecuteChildren - the AVTs are NOT evaluated
+   there; evaluateAVTs: unguarded addResultAttribute), ElemElement.cpp, ElemCopy.cpp: the frame of the using element lists
+   what ElemUse::getFirst/NextChildElemToExecute will hand out - JSet k for every set (the list plays the
+   UseAttributeSetIndexes stack and the invoker stack), JAvts for evaluateAVTs after the last set, then the children; JSet k
+   pushes a context marker and runs the set's own sets and its xsl:attribute children.  Not modelled:
+   m_elementRecursionStack (a circular use never stops here; the library raises an error; SafeErrModel.attset_balanced_l).
+   Definitions only (extracted by ExtractXsltCore2.v / ExtractXsltCore3.v). *)
 From Coq Require Import List NArith Bool Arith.
 Require Import XV.XsltEventsDefs XV.XsltVarsDefs XV.XsltCoreDefs.
 Import ListNotations.
@@ -71,7 +84,22 @@ Inductive instr2 :=
 | JTemplate (ps : list instr2) (body : list instr2)
 | JElement (nm : list avtpart) (body : list instr2)          (* xsl:element name="{...}" *)
 | JComment (body : list instr2)                               (* xsl:comment *)
-| JPI (nm : list avtpart) (body : list instr2).               (* xsl:processing-instruction name="{...}" *)
+| JPI (nm : list avtpart) (body : list instr2)                (* xsl:processing-instruction name="{...}" *)
+(* ---- attribute sets (XSLT 1.0 7.1.4).  use = the attribute sets named by use-attribute-sets, as indices into the
+   program (the merging of same-named sets by import precedence is done by whoever builds the program: every name is
+   replaced by its sets, lowest precedence first) ---- *)
+| JLreU (n : str) (use : list N) (atts : list (str * list avtpart)) (body : list instr2)
+| JElementU (nm : list avtpart) (use : list N) (body : list instr2)
+| JCopyU (use : list N) (body : list instr2)
+| JAttrSet (use : list N) (atts : list (str * list avtpart))   (* xsl:attribute-set: a top-level entry of the program, like JTemplate *)
+| JSet (k : N)            (* pseudo-instruction: "the next attribute set is k" (ElemUse::getNextAttributeSet) *)
+| JAvts (atts : list (str * list avtpart)).   (* pseudo-instruction: ElemLiteralResult::evaluateAVTs after the last set *)
+(* what an element that uses attribute sets runs before its own content; what a set runs *)
+Definition use_sets (use : list N) : list instr2 := map JSet use.
+Definition set_body (use : list N) (atts : list (str * list avtpart)) : list instr2 :=
+  use_sets use ++ map (fun p => JAttribute (fst p) (snd p)) atts.
+Definition attr_items (pre : attrs) : list item := map (fun p => GAttr (fst p) (snd p)) pre.
+
 Definition is_decl2 (i : instr2) : bool :=
   match i with JVar _ _ _ | JParam _ _ => true | _ => false end.
 
@@ -175,6 +203,13 @@ Definition emit2 (ops : list iop) (o : out2) : out2 :=
 Definition emit_lre_start2 (n : str) (pre : attrs) (o : out2) : out2 :=
   mkO (match o_fmt o with
        | e :: r => fold_left (fun s p => eng_add_attr (fst p) (snd p) s) pre (eng_start n e) :: r
+       | [] => []
+       end) (o_txt o) (o_str o).
+
+(* ElemLiteralResult::evaluateAVTs: the AVTs through the engine's unguarded addResultAttribute *)
+Definition emit_avts (pre : attrs) (o : out2) : out2 :=
+  mkO (match o_fmt o with
+       | e :: r => fold_left (fun s p => eng_add_attr (fst p) (snd p) s) pre e :: r
        | [] => []
        end) (o_txt o) (o_str o).
 
@@ -431,7 +466,46 @@ Section Core2.
                       else None
           | None => None
           end
-      | JWithParam _ _ _ | JParam _ _ | JTemplate _ _ => None
+      | JLreU n use atts body =>
+          (* 7.1.4: the attributes of the used sets first, in the order of the names; then the element's own attributes
+             (they replace same-named ones of the sets); then the content.  A set sees no local bindings *)
+          if nonempty n then
+            match seq tm c (use_sets use) en, ev_atts (slk en) c atts with
+            | Some sa, Some pre => match seq tm c body en with
+                                   | Some o => Some (en, [GElem n [] (sa ++ attr_items pre ++ o)])
+                                   | None => None
+                                   end
+            | _, _ => None
+            end
+          else None
+      | JElementU nm use body =>
+          match ev_avt (slk en) c nm with
+          | Some n => if name_ok n
+                      then match seq tm c (use_sets use) en, seq tm c body en with
+                           | Some sa, Some o => Some (en, [GElem n [] (sa ++ o)])
+                           | _, _ => None
+                           end
+                      else None
+          | None => None
+          end
+      | JCopyU use body =>
+          match node_shallow (cnode c) with
+          | ShElem n => if nonempty n && elem_guard gd tm
+                        then match seq tm c (use_sets use) en, seq tm c body en with
+                             | Some sa, Some o => Some (en, [GElem n [] (sa ++ o)])
+                             | _, _ => None
+                             end
+                        else None
+          | ShRoot => block body                  (* use-attribute-sets of xsl:copy applies to element nodes only *)
+          | ShLeaf its => match copy_guard gd tm its with Some its' => Some (en, its') | None => None end
+          end
+      | JSet k =>
+          match nth_error templates (N.to_nat k) with
+          | Some (JAttrSet use atts) =>
+              match seq tm c (set_body use atts) [] with Some o => Some (en, o) | None => None end
+          | _ => None
+          end
+      | JWithParam _ _ _ | JParam _ _ | JTemplate _ _ | JAttrSet _ _ | JAvts _ => None
       end
     end.
 
@@ -652,6 +726,48 @@ Section Core2.
                          else Stuck2
             | None => Stuck2
             end
+        | JLreU nm use atts body =>
+            (* ElemLiteralResult::startElement: startElement(name), ElemUse::startElement (invoker and index stacks),
+               beginExecuteChildren; ElemUse::getFirst/NextChildElemToExecute: every attribute set, then evaluateAVTs, then
+               the children (the frame's list plays the index stack) *)
+            Run2 KNext (mkM2 ((i, use_sets use ++ JAvts atts :: body, false) :: stk) nodes cnl cur modes ifs pvs (begin_children2 body v) store
+                             (emit2 [IStart nm] o))
+        | JElementU nm use body =>
+            match ev_avt lk cx nm with
+            | Some en => if name_ok en
+                         then Run2 KNext (mkM2 ((i, use_sets use ++ body, false) :: stk) nodes cnl cur modes ifs pvs (begin_children2 body v) store
+                                               (emit2 [IStart en] (push_str en o)))
+                         else Stuck2
+            | None => Stuck2
+            end
+        | JCopyU use body =>
+            match node_shallow n with
+            | ShElem nm =>
+                if tflag o then
+                  (if fx_copy then Run2 (KEnd i) s
+                   else Run2 KNext (mkM2 ((i, use_sets use ++ body, false) :: stk) nodes cnl cur modes ifs pvs (begin_children2 body v) store o))
+                else Run2 KNext (mkM2 ((i, use_sets use ++ body, false) :: stk) nodes cnl cur modes ifs pvs (begin_children2 body v) store
+                                      (emit2 [IStart nm] o))
+            | ShRoot => Run2 KNext (mkM2 ((i, body, false) :: stk) nodes cnl cur modes ifs pvs (begin_children2 body v) store o)
+            | ShLeaf its => Run2 (KEnd i) (mkM2 stk nodes cnl cur modes ifs pvs v store (emit2 (ops_of (tfilter (tflag o) its)) o))
+            end
+        | JSet k =>
+            (* ElemAttributeSet::startElement: ElemUse::startElement (its own use-attribute-sets), pushContextMarker (only
+               top-level bindings are visible in a set), pushOnElementRecursionStack (not modelled: a circular use never
+               stops here; the library raises an error; its guard discipline is SafeErrModel.attset_balanced), the sets it
+               uses, then its xsl:attribute children *)
+            match nth_error templates (N.to_nat k) with
+            | Some (JAttrSet use atts) =>
+                Run2 KNext (mkM2 ((i, set_body use atts, false) :: stk) nodes cnl cur modes ifs pvs (push ECtx v) store o)
+            | _ => Stuck2
+            end
+        | JAvts atts =>
+            (* evaluateAVTs: addResultAttribute without the guard *)
+            match ev_atts lk cx atts with
+            | Some pre => Run2 (KEnd i) (mkM2 stk nodes cnl cur modes ifs pvs v store (emit_avts pre o))
+            | None => Stuck2
+            end
+        | JAttrSet _ _ => Stuck2
         end
       | KEnd i =>
         match i with
@@ -733,7 +849,35 @@ Section Core2.
               | None => Stuck2
               end
             else Run2 KNext s
-        | JText _ | JValueOf _ | JChoose _ | JCopyOf _ | JAttribute _ _ => Run2 KNext s
+        | JText _ | JValueOf _ | JChoose _ | JCopyOf _ | JAttribute _ _ | JAvts _ => Run2 KNext s
+        | JAttrSet _ _ => Stuck2
+        | JSet _ =>
+            (* ElemAttributeSet::endElement: popElementRecursionStack, popContextMarker, ElemUse::endElement *)
+            Run2 KNext (mkM2 stk nodes cnl cur modes ifs pvs (pop_ctx v) store o)
+        | JLreU nm _ _ body =>
+            match end_children2 body v with
+            | Some v' => Run2 KNext (mkM2 stk nodes cnl cur modes ifs pvs v' store (emit2 [IEnd nm] o))
+            | None => Stuck2
+            end
+        | JElementU _ _ body =>
+            match end_children2 body v, pop_str o with
+            | Some v', Some (en, o1) => Run2 KNext (mkM2 stk nodes cnl cur modes ifs pvs v' store (emit2 [IEnd en] o1))
+            | _, _ => Stuck2
+            end
+        | JCopyU _ body =>
+            match node_shallow n with
+            | ShElem nm =>
+                if tflag o && fx_copy then Run2 KNext s
+                else match end_children2 body v with
+                     | Some v' => Run2 KNext (mkM2 stk nodes cnl cur modes ifs pvs v' store (emit2 [IEnd nm] o))
+                     | None => Stuck2
+                     end
+            | ShRoot => match end_children2 body v with
+                        | Some v' => Run2 KNext (mkM2 stk nodes cnl cur modes ifs pvs v' store o)
+                        | None => Stuck2
+                        end
+            | ShLeaf _ => Run2 KNext s
+            end
         | JElement _ body =>
             (* ElemElement::endElement: endExecuteChildren, getAndPopCachedString, endElement(name) *)
             match end_children2 body v, pop_str o with
